@@ -46,6 +46,19 @@ def cursor_positions_are_not_narrowed(prog, rep, R):
         for f in v.get("fields", []):
             if str(f.get("ty")) in ("u16", "u8", "i16", "i8"):
                 narrow.append("%s.%s: %s" % (v["name"], f.get("name"), f.get("ty")))
+    # (the facts carry no field types of enum variants: the width of a field is read off what is stored into it where the value is built)
+    built = 0
+    for b in prog.bodies.values():
+        if not (b.npath.startswith(REC) or b.npath.startswith("<" + REC)):
+            continue
+        for bb, i, s2 in b.stmts():
+            if s2["k"] == "assign" and s2["rv"]["k"] == "aggregate" and norm(s2["rv"].get("adt", "")) == REC + "TokPos":
+                built += 1
+                for fname, op in zip(s2["rv"].get("fields") or [], s2["rv"]["ops"]):
+                    ty = str(op.get("ty")) if op["k"] == "const" else (b.local_ty(op["place"]["l"]) if not op["place"]["p"] else "?")
+                    if str(ty) in ("u16", "u8", "i16", "i8"):
+                        narrow.append("%s.%s: %s (built in %s)" % (s2["rv"].get("variant"), fname, ty, short(b.npath)))
+    rep.floor(R, "TokPos values built in the cursor code", built, 2)
     rep.check(not bad and not narrow, R, "cursor-positions-at-least-32-bits",
               "the position of a cursor inside its token is narrowed below 32 bits (%s): a line of 65536 bytes (or that many lines) in a comment or string moves the reported cursor by 65536 bytes inside "
               "a token whose text did not change" % (bad + narrow)[:3], instance={"int_casts": n, "narrowing": (bad + narrow)[:5]})
